@@ -241,22 +241,12 @@ fn x_def(kind: usize) -> Option<DefM> {
     })
 }
 
-fn scopes_program(mut idx: u64) -> Program {
-    let mut take = |n: usize| -> usize {
-        let v = (idx % n as u64) as usize;
-        idx /= n as u64;
-        v
-    };
-    let kinds = [take(KINDS), take(KINDS), take(KINDS)];
-    let ref_level = take(3);
-    let spelling = SPELLINGS[take(12)];
-    let position = take(POSITIONS);
-    let order = ORDERS[take(6)];
-    let member_named_x = take(2) == 1;
-    let naming = NAMINGS[take(3)];
-    let spelling: String = spelling.split("::").map(|seg| rename(seg, &naming)).collect::<Vec<_>>().join("::");
-    let t = TypeM::named(&spelling);
-    let member_name = if member_named_x { "X" } else { "m" };
+fn host_for_position(position: usize, t: TypeM) -> DefM {
+    host_with(position, t, "m")
+}
+
+/// The referencing definition `Host` with the reference in one of the POSITIONS places.
+fn host_with(position: usize, t: TypeM, member_name: &str) -> DefM {
     let fld = |ty: TypeM| FieldM {
         pre: Prelude::default(),
         tag: None,
@@ -270,7 +260,7 @@ fn scopes_program(mut idx: u64) -> Program {
         stream: false,
         ty,
     };
-    let host = match position {
+    match position {
         0 => DefM::Struct(StructM {
             name: "Host".into(),
             fields: vec![fld(t)],
@@ -324,7 +314,39 @@ fn scopes_program(mut idx: u64) -> Program {
             underlying: Some(t),
             ..Default::default()
         }),
+    }
+}
+
+fn scopes_program(mut idx: u64) -> Program {
+    let mut take = |n: usize| -> usize {
+        let v = (idx % n as u64) as usize;
+        idx /= n as u64;
+        v
     };
+    let kinds = [take(KINDS), take(KINDS), take(KINDS)];
+    let ref_level = take(3);
+    let spelling = SPELLINGS[take(12)];
+    let position = take(POSITIONS);
+    let order = ORDERS[take(6)];
+    let member_named_x = take(2) == 1;
+    let naming = NAMINGS[take(3)];
+    let spelling: String = spelling.split("::").map(|seg| rename(seg, &naming)).collect::<Vec<_>>().join("::");
+    let t = TypeM::named(&spelling);
+    let member_name = if member_named_x { "X" } else { "m" };
+    let fld = |ty: TypeM| FieldM {
+        pre: Prelude::default(),
+        tag: None,
+        name: member_name.to_owned(),
+        ty,
+    };
+    let prm = |ty: TypeM| ParamM {
+        pre: Prelude::default(),
+        tag: None,
+        name: member_name.to_owned(),
+        stream: false,
+        ty,
+    };
+    let host = host_with(position, t, member_name);
     // four files: one per level (the X definitions) and one for the host
     let mut files: Vec<FileM> = Vec::new();
     for slot in order {
@@ -502,6 +524,55 @@ fn escaped_primitive_case(cx: &mut CaseCtx, input: Input) -> CaseResult {
     Ok(())
 }
 
+// ---- twin scopes: the same relative spelling in two modules means two different things -----------
+
+pub const TWINS_TOTAL: u64 = (POSITIONS * 5 * 3 * 2) as u64;
+
+/// Modules `A` and `B` (or `A::In` and `B::In`) each define `X` of the same kind and a host that
+/// refers to it by the same relative spelling (`X`, `In::X`); each host must bind to the `X` of its
+/// own module, whichever file comes first.
+fn twins_case(cx: &mut CaseCtx, input: Input) -> CaseResult {
+    let mut idx = input.index() as usize;
+    let position = idx % POSITIONS;
+    idx /= POSITIONS;
+    let kind = 1 + idx % 5;
+    idx /= 5;
+    let shape = idx % 3; // 0: modules A / B, spelling X; 1: modules A::In / B::In, spelling X; 2: X in A::In / B::In, hosts in A / B, spelling In::X
+    idx /= 3;
+    let swapped = idx % 2 == 1;
+    let spelling = if shape == 2 { "In::X" } else { "X" };
+    let mut files: Vec<FileM> = Vec::new();
+    for outer in ["A", "B"] {
+        let x_path: Vec<String> = if shape == 0 { vec![outer.into()] } else { vec![outer.into(), "In".into()] };
+        let host_path: Vec<String> = if shape == 2 { vec![outer.into()] } else { x_path.clone() };
+        let t = TypeM::named(spelling);
+        // the same host shapes as in the `scopes` family
+        let host = host_for_position(position, t);
+        let x = x_def(kind).unwrap();
+        if x_path == host_path {
+            files.push(FileM { path: String::new(), file_attrs: vec![], module: Some(ModuleM { attrs: vec![], path: x_path }), defs: vec![x, host] });
+        } else {
+            files.push(FileM { path: String::new(), file_attrs: vec![], module: Some(ModuleM { attrs: vec![], path: x_path }), defs: vec![x] });
+            files.push(FileM { path: String::new(), file_attrs: vec![], module: Some(ModuleM { attrs: vec![], path: host_path }), defs: vec![host] });
+        }
+    }
+    if swapped {
+        files.reverse();
+    }
+    for (k, f) in files.iter_mut().enumerate() {
+        f.path = format!("string-{k}");
+    }
+    let mut p = Program { files };
+    p.fill_effective_values();
+    cx.nontrivial = true;
+    cx.label("twin-scopes");
+    cx.label_if(position == 6, "twin-scopes-base-interface");
+    let rendered: Vec<Rendered> = crate::render::render_program(&p, &[], false);
+    let texts: Vec<String> = rendered.iter().map(|r| r.text.clone()).collect();
+    cx.sample_with(|| json!({"files": texts}));
+    binding(cx, &p, &texts, &rendered)
+}
+
 // ---- alias chains ---------------------------------------------------------------------------
 
 const CHAIN_MODULES: [&[&str]; 4] = [&["A"], &["A", "B"], &["D"], &["A", "B", "C"]];
@@ -665,7 +736,7 @@ impl Check for C03 {
         "C03"
     }
     fn rule(&self) -> String {
-        format!("families: scopes = all {SCOPES_TOTAL} arrangements of module levels A, A::B, A::B::C (also renamed to A, A::A, A::A::A and A, A::B, A::B::A, so that inner modules repeat an outer name) x definition `X` of kind none/struct/interface/alias/custom/enum at each level x referencing level x 12 spellings x 8 positions (field, parameter, return, sequence element, dictionary value, alias target, interface base, enum underlying) x 6 file orders x member-named-like-the-type (strided in the quick tier); positional = every (only base, second base, enum underlying type) x (primitive, optional primitive, sequence, dictionary, result, struct, interface, custom type): bound or reported, never dropped; escaped-primitives = every primitive reached by name (`\\int64`, `::int64`), bare and shadowed by a definition of that name; alias-chains = proptest choice sequences -> chains of 1..4 aliases over 4 modules with an attribute per link, shared short names and every spelling; programs = random larger programs. Oracle: the reference resolver (outward scope search, '::' global, alias flattening with attribute accumulation): resolves <=> accepted, observed bindings == expected, a miss / wrong kind / loop is reported with an admissible code inside the offending reference's text, never silently bound elsewhere; every definition, field, enumerator and operation is retrievable through Ast::find_element. Non-trivial = shadowed at >= 2 levels, crosses files, or goes through an alias")
+        format!("families: scopes = all {SCOPES_TOTAL} arrangements of module levels A, A::B, A::B::C (also renamed to A, A::A, A::A::A and A, A::B, A::B::A, so that inner modules repeat an outer name) x definition `X` of kind none/struct/interface/alias/custom/enum at each level x referencing level x 12 spellings x 8 positions (field, parameter, return, sequence element, dictionary value, alias target, interface base, enum underlying) x 6 file orders x member-named-like-the-type (strided in the quick tier); positional = every (only base, second base, enum underlying type) x (primitive, optional primitive, sequence, dictionary, result, struct, interface, custom type): bound or reported, never dropped; twins = two modules each defining `X` and a host referring to it by the same relative spelling (8 positions x 5 kinds x 3 module shapes x 2 file orders): each binds to its own; escaped-primitives = every primitive reached by name (`\\int64`, `::int64`), bare and shadowed by a definition of that name; alias-chains = proptest choice sequences -> chains of 1..4 aliases over 4 modules with an attribute per link, shared short names and every spelling; programs = random larger programs. Oracle: the reference resolver (outward scope search, '::' global, alias flattening with attribute accumulation): resolves <=> accepted, observed bindings == expected, a miss / wrong kind / loop is reported with an admissible code inside the offending reference's text, never silently bound elsewhere; every definition, field, enumerator and operation is retrievable through Ast::find_element. Non-trivial = shadowed at >= 2 levels, crosses files, or goes through an alias")
     }
     fn assumptions(&self) -> Vec<String> {
         vec![
@@ -702,6 +773,7 @@ impl Check for C03 {
         vec![
             Family::enumerate("scopes", SCOPES_TOTAL, tier.pick(7, 1), scopes_case),
             Family::enumerate("positional", POSITIONAL_TOTAL, 1, positional_case),
+            Family::enumerate("twins", TWINS_TOTAL, 1, twins_case),
             Family::enumerate("escaped-primitives", ESCAPED_PRIMITIVES_TOTAL, 1, escaped_primitive_case),
             Family::bytes("alias-chains", 64, tier.pick(6_000, 150_000), chains_case),
             Family::bytes("programs", 600, tier.pick(1_500, 30_000), move |cx, i| programs_case(cx, i, &cfg)),
